@@ -13,20 +13,29 @@ func UnmarshalSelectionSet(b []byte) (SelectionSet, error) {
 
 	result := make([]Selection, 0)
 	for _, item := range tmp {
-		var field Field
-		if err := json.Unmarshal(item, &field); err == nil {
-			result = append(result, &field)
+		// the three kinds of selection are told apart by the keys they are encoded with:
+		// only a field has an alias, only an inline fragment has a type condition
+		var keys map[string]json.RawMessage
+		if err := json.Unmarshal(item, &keys); err != nil {
+			continue
+		}
+		if _, ok := keys["Alias"]; ok {
+			var field Field
+			if err := json.Unmarshal(item, &field); err == nil {
+				result = append(result, &field)
+			}
+			continue
+		}
+		if _, ok := keys["TypeCondition"]; ok {
+			var inlineFragment InlineFragment
+			if err := json.Unmarshal(item, &inlineFragment); err == nil {
+				result = append(result, &inlineFragment)
+			}
 			continue
 		}
 		var fragmentSpread FragmentSpread
 		if err := json.Unmarshal(item, &fragmentSpread); err == nil {
 			result = append(result, &fragmentSpread)
-			continue
-		}
-		var inlineFragment InlineFragment
-		if err := json.Unmarshal(item, &inlineFragment); err == nil {
-			result = append(result, &inlineFragment)
-			continue
 		}
 	}
 
